@@ -339,8 +339,14 @@ pub fn svg(sink: &mut Sink, seed: u64, thorough: bool) {
 pub fn frames(sink: &mut Sink, seed: u64, thorough: bool) {
     let mut r = rng(seed, 22);
     let qrs: Vec<QRCode> = (1..=40).map(|v| qr_of(v, seed)).collect();
+    // the default frame may not depend on anything but the size and the options: each sweep uses symbols of ONE level (L, M, Q, H rotating over
+    // the sweeps; all four per sweep in the thorough tier), and one sweep per shape uses symbols of mixed levels and modes
+    let by_level: Vec<Vec<QRCode>> = (0..4usize).map(|e| (1..=40).map(|v| qr_of_level(v, e, seed + 1)).collect()).collect();
     for k in 0..3usize {
-        for m in (0..=16usize).chain([17usize, 33, 64, 120]) {
+        for m in (0..=16usize).chain([17usize, 33, 64, 120]) { for lv in 0..5usize {
+            if lv < 4 && !thorough && lv != (k + m) % 4 { continue; }
+            if lv == 4 && m != 4 && m != 0 { continue; }
+            let qrs: &Vec<QRCode> = if lv < 4 { &by_level[lv] } else { &qrs };
             let mut rows = Vec::new();
             let mut kind = "Ok".to_string();
             for v in 1..=40usize {
@@ -352,8 +358,8 @@ pub fn frames(sink: &mut Sink, seed: u64, thorough: bool) {
                 }
             }
             let id = sink.id();
-            sink.emit(&json!({"ev": "FrameSweep", "id": id, "tag": format!("frame:{k}:{m}"), "shape": k, "margin": m, "kind": kind, "rows": rows}));
-        }
+            sink.emit(&json!({"ev": "FrameSweep", "id": id, "tag": format!("frame:{k}:{m}:{lv}"), "shape": k, "margin": m, "kind": kind, "rows": rows}));
+        } }
     }
     // overrides: exactly representable quarter-module values and arbitrary reals
     for i in 0..(if thorough { 6000 } else { 420 }) {
